@@ -221,6 +221,9 @@ def run(ctx, rep):
     n1, n2 = (450, 450) if ctx.quick else (4000, 4000)
     progs = PG.gen_programs(rng, n1, tainted=False) + PG.gen_programs(rng, n2, tainted=True)
     progs += PG.gen_programs(ctx.rng('unres2'), 150 if ctx.quick else 1500, tainted=False, second_unresolvable=True)
+    # a dispatcher between wrapper and callee, called with a run-time-only positional argument BEFORE two
+    # known callables (it calls the first): the known values keep their positions in the callee's own analysis
+    progs += PG.gen_programs(ctx.rng('pick'), 120 if ctx.quick else 1000, tainted=False, routes=['chain_pick', 'chain_pick', 'chain_pos'])
     rep.rule = ('programs of the forwarding grammar, half of them with a taint statement (rebind, augmented assignment, '
                 'method/item mutation, del, handing over, nonlocal capture, aliasing read) placed before or after the call; '
                 'every program is really executed on every call shape its reported signature accepts '
@@ -238,6 +241,13 @@ def run(ctx, rep):
         if idx in (0, 1, n1, n1 + 1):
             rep.sample({'program': p.source, 'ground_truth': p.describe()})
     rep.coverage['programs'] = len(progs)
+    rep.coverage['calls_with_literals_after_star'] = sum(1 for p in progs for c in p.calls if c.tail)
+    # ---- fixed witnesses: a nested def / class statement that shadows the global callee ----
+    for label, src in SHADOW_WITNESSES:
+        rep.evaluations += 1
+        what = shadow_witness(src)
+        if what:
+            rep.violation('C05:nested-def-shadows-callee', what + '\n' + src, {'kind': 'shadow-witness', 'label': label, 'source': src})
     rep.coverage['distribution'] = dict(sorted(hist.items())[:400])
     # ---- the grammar of Model/Exec.v (theorems C05_walker_is_absint, C05_flag_sound) ----
     import execcheck
@@ -299,8 +309,54 @@ def run(ctx, rep):
     ]
 
 
+SHADOW_WITNESSES = [
+    ('def', """def callee(x, y=2):
+    return None
+def wrapper(*args, **kwargs):
+    def callee(p, q):
+        return None
+    return callee(*args, **kwargs)
+"""),
+    ('class', """def callee(x, y=2):
+    return None
+def wrapper(*args, **kwargs):
+    class callee(object):
+        def __init__(self, p, q):
+            pass
+    return callee(*args, **kwargs)
+"""),
+]
+
+
+def shadow_witness(src):
+    """a `def` / `class` statement in the wrapper's body binds the name the forwarding call uses: the
+    call goes to the local object, not to the global of that name.  Returns the description of a call
+    the advertised signature accepts and whose execution raises TypeError, or None."""
+    ns = PG.load_module(src, tag='shadow')
+    try:
+        w = ns['wrapper']
+        got = DC.get_sig(w)
+        if got[0] == 'err':
+            return 'sigtools.signature(wrapper) raised %s' % got[1]
+        sig = got[1]
+        names = {'x', 'y', 'p', 'q', 'args', 'kwargs', 'self'}
+        for shape in DC.shapes_for_exec(sig, []):
+            if not DC.binds(sig, shape) or not DC.noncolliding(sig, shape, names):
+                continue
+            err = DC.execute(ns, w, shape)
+            if err is not None:
+                return ('signature %s accepts call npos=%d kws=%s but executing it raises TypeError: %s (the name callee is '
+                        'bound by a nested def/class statement in the body; the call does not go to the global callee)'
+                        % (sig, shape[0], list(shape[1]), err))
+        return None
+    finally:
+        PG.unload(ns)
+
+
 def replay(ctx, data):
     r = data['replay']
+    if r.get('kind') == 'shadow-witness':
+        return shadow_witness(r['source'])
     if r.get('kind') == 'exec-loop-grammar':
         import execcheck_loop
         return execcheck_loop.replay_loop(r['prog'])
@@ -380,6 +436,8 @@ def wrapper(**kwargs):
 
 
 def replay_known(ctx, k):
+    if k.get('key') == 'C05:nested-def-shadows-callee':
+        return any(shadow_witness(src) for _, src in SHADOW_WITNESSES)
     if k.get('key') == 'C05:nested-scope-mutation':
         ns = PG.load_module(NESTED_WITNESS)
         try:
